@@ -74,6 +74,21 @@ def run_case(ctx, rng, idx):
         ctx.event("exhaustive-4-node-hypergraph")
         evaluate(ctx, rng, idx, h, "H", ":exhaustive")
         return
+    if idx == 1 or (ctx.tier == "thorough" and idx % 500 == 9):
+        # scale: ~100 nodes, a few hundred hyperedges, several components (sampled nodes and filters)
+        import hypergraphx as hgx
+
+        n = rng.randint(60, 120)
+        nodes = [5 * i - 100 for i in range(n)]
+        h = hgx.Hypergraph()
+        h.add_nodes(nodes)
+        blocks = [nodes[i::rng.randint(2, 4)] for i in range(2)]
+        for _ in range(rng.randint(150, 400)):
+            pool = rng.choice(blocks + [nodes]) if rng.random() < 0.9 else nodes
+            h.add_edge(tuple(rng.sample(pool, min(len(pool), rng.choice([1, 2, 2, 3, 4, 6])))))
+        ctx.event("big-hypergraph")
+        evaluate(ctx, rng, idx, h, "H", ":big", sample=12)
+        return
     if idx % 4 == 3:
         kind = "HDTM"[(idx // 4) % 4]
         cfg = history.Cfg(rng, kind)
@@ -105,7 +120,7 @@ def run_case(ctx, rng, idx):
                 evaluate(ctx, rng, idx, h, kind, ":after-removing-edgeless-node")
 
 
-def evaluate(ctx, rng, idx, h, kind, phase):
+def evaluate(ctx, rng, idx, h, kind, phase, sample=None):
     from hypergraphx.measures import degree as dm
     from hypergraphx.utils import cc
 
@@ -114,9 +129,13 @@ def evaluate(ctx, rng, idx, h, kind, phase):
     sizes = [K.size(k) for k in S.edges]
     mx = max(sizes) if sizes else 0
     filters = [None] + [("size", s) for s in range(0, mx + 2)] + [("order", s - 1) for s in range(0, mx + 2)]
+    all_nodes = list(S.nodes)
+    probe_nodes = set(all_nodes if sample is None else rng.sample(all_nodes, min(sample, len(all_nodes))))
+    if sample is not None:
+        filters = [None] + rng.sample(filters[1:], 4)
 
     def wit(extra=None):
-        return {"kind": kind, "phase": phase, "object": S.describe(), "extra": repr(extra)[:500]}
+        return {"kind": kind, "phase": phase, "object": S.describe() if len(S.nodes) <= 20 else {"nodes": len(S.nodes), "edges": len(S.edges)}, "extra": repr(extra)[:500]}
 
     for f in filters:
         kw = {} if f is None else {f[0]: f[1]}
@@ -125,7 +144,7 @@ def evaluate(ctx, rng, idx, h, kind, phase):
         # ---------------- degrees -------------------------------------------------------
         deg = {n: sum(1 for k in sel if n in K.nodes(k)) for n in S.nodes}
         ctx.check("C08:degree", sum(deg.values()) == sum(K.size(k) for k in sel), "C08:oracle-self-check", wit)
-        for n in S.nodes:
+        for n in probe_nodes:
             g1 = call(h.degree, n, **kw)
             g2 = call(dm.degree, h, n, **kw)
             ctx.check("C08:degree", g1 == deg[n], f"C08:{kind}:degree(method)" + (":filtered" if f else ""), lambda: wit((n, kw, g1, deg[n])))
@@ -167,7 +186,7 @@ def evaluate(ctx, rng, idx, h, kind, phase):
         for name, fn in (("method", h.largest_component_size), ("function", lambda **k: cc.largest_component_size(h, **k))):
             got = call(fn, **kw)
             ctx.check("C08:components", got == big, f"C08:largest_component_size({name})" + (":filtered" if f else ""), lambda: wit((kw, got, big)))
-        for n in S.nodes:
+        for n in probe_nodes:
             for name, fn in (("method", h.node_connected_component), ("function", lambda x, **k: cc.node_connected_component(h, x, **k))):
                 got = call(fn, n, **kw)
                 ok = not isinstance(got, _Raised) and frozenset(got) == comp_of[n] and len(got) == len(comp_of[n])
